@@ -609,7 +609,8 @@ Section ReaderInv.
     inversion H; subst; clear H. constructor; cbn.
     - intros wd0 p0 Hin. apply in_aset in Hin as [Hin|[-> _]]; eauto.
     - intros p0 wd0 Hin. apply in_aset in Hin as [Hin|[_ [->|E]]]; eauto.
-      apply beqb_eq in E. now subst.
+      + apply ReaderFixProofs.unlabel_in in Hin. eauto.
+      + apply beqb_eq in E. now subst.
     - exact H3.
     - exact H4.
   Qed.
@@ -1720,7 +1721,7 @@ Definition zhong_ : bytes := [228; 184; 173]%N.       (* "中" *)
 
 Definition P_ : pcfg :=
   {| pc_reader := {| c_recursive := true; c_mask := WATCHDOG_ALL; c_root := rt_; c_fix_ignored := true;
-                     c_fix_movein := true; c_fix_simulate := true; c_fix_moveout := true; c_faults := [] |};
+                     c_fix_movein := true; c_fix_simulate := true; c_fix_relabel := true; c_fix_moveout := true; c_faults := [] |};
      pc_full := false; pc_filter := None; pc_delay := 5 |}.
 Definition w_ : world := {| w_fs := [{| f_path := rt_; f_ino := 1; f_dir := true |}]; w_next_ino := 2 |}.
 Definition h_ : list action :=
@@ -1797,7 +1798,7 @@ Qed.
 Definition out_ : bytes := [47; 111]%N.               (* "/o" *)
 Definition Pm_ (fix_moveout : bool) : pcfg :=
   {| pc_reader := {| c_recursive := true; c_mask := WATCHDOG_ALL; c_root := rt_; c_fix_ignored := true;
-                     c_fix_movein := true; c_fix_simulate := true; c_fix_moveout := fix_moveout; c_faults := [] |};
+                     c_fix_movein := true; c_fix_simulate := true; c_fix_relabel := true; c_fix_moveout := fix_moveout; c_faults := [] |};
      pc_full := false; pc_filter := None; pc_delay := 5 |}.
 Definition wm_ : world :=
   {| w_fs := [{| f_path := rt_; f_ino := 1; f_dir := true |}; {| f_path := out_; f_ino := 2; f_dir := true |}];
